@@ -324,6 +324,9 @@ def main(argv=None):
             else:
                 inconclusive.append(dict(item=cfg.get("id"), label=o["label"], why=o["stage"]))
         if r.get("twin_mismatch"):
+            # first: ANY clause of the item, evaluated on the real library with the twin's numbers (the first obligation of a
+            # kind may be one that still holds, e.g. a shape clause in front of the value clauses of the same kind)
+            twin_cases.append(dict(cfg=r["cfg"], label="*", env=r["twin_mismatch"]["env"], kind="twin:any-clause", path=-1, twin=True))
             seen_kinds = set()
             for o in r.get("obligations", []):
                 kd = o.get("kind")
